@@ -186,8 +186,15 @@ def run_history(hist: dict) -> dict:
                     clients.append([c, sorted({name2code.get(n, 0) for n in needs[c]})])
             imp = {}
             if claimed:
-                r = pipeline.drive(g, ORACLE_SCRIPT, {"claimed": claimed, "core": core_pkg, "needs": needs})
-                imp = r["result"] if r.get("ok") else {c: ["driver: " + str(r.get("error"))] for c in claimed}
+                arg = {"claimed": claimed, "core": core_pkg, "needs": needs}
+                r = pipeline.drive(g, ORACLE_SCRIPT, arg)
+                for _ in range(2):  # the driver itself (not the generated code) can time out on a loaded machine
+                    if r.get("ok"):
+                        break
+                    r = pipeline.drive(g, ORACLE_SCRIPT, arg, timeout=600)
+                if not r.get("ok"):
+                    raise RuntimeError(f"import driver failed three times: {r.get('error')} {r.get('traceback', '')[-500:]}")
+                imp = r["result"]
             obs.append({"registry": registry, "aliases": aliases, "alias_names": alias_names, "clients": clients,
                         "ok": g.ok, "error": (g.error or "")[:120], "claimed": list(claimed), "import_errors": imp})
     finally:
@@ -286,8 +293,8 @@ def main(chk, replay: dict | None = None) -> int:
     inputs = [c["input"] for c in load_corpus("C11")]
     for core in LAYOUTS:
         en = enum_two_step(core)
-        inputs += en if chk.thorough else rng.sample(en, 16)
-        inputs += [gen_history(rng, core, max_steps) for _ in range(80 if chk.thorough else 24)]
+        inputs += en if chk.thorough else rng.sample(en, 10)
+        inputs += [gen_history(rng, core, max_steps) for _ in range(80 if chk.thorough else 14)]
     cases = run_parallel(inputs)
     for c in cases:
         c["oracle_fail"] = oracle(c)
